@@ -6,7 +6,7 @@ from ..cmp import cmp_record, bits_close, cmp_bits_list
 from .. import gen, oracle, graphs
 
 MODULE = "Momtrop.Props.C04R"
-THEOREMS = ["Momtrop.C04.memo_sound", "Momtrop.C04.J_empty", "Momtrop.C04.J_rec", "Momtrop.C04.table_j", "Momtrop.C04.edge_probs_sum_one", "Momtrop.C04.cachedFactor_eq", "Momtrop.C04.J_eq_sum_orderings", "Momtrop.C04.J_full_eq_sum_orderings", "Momtrop.C04.orderingsAux_length", "Momtrop.C04.orderingsAux_perm", "Momtrop.C04.orderingsAux_nodup"]
+THEOREMS = ["Momtrop.C04.memo_sound", "Momtrop.C04.J_empty", "Momtrop.C04.J_rec", "Momtrop.C04.table_j", "Momtrop.C04.edge_probs_sum_one", "Momtrop.C04.cachedFactor_eq", "Momtrop.C04.J_eq_sum_orderings", "Momtrop.C04.J_full_eq_sum_orderings", "Momtrop.C04.orderingsAux_length", "Momtrop.C04.orderingsAux_perm", "Momtrop.C04.orderingsAux_nodup", "Momtrop.C04.orderProb_eq", "Momtrop.C04.complete_order_exhausts", "Momtrop.C04.orderProb_sum_one"]
 RULE = ("accepted catalogue + random multigraphs (E<=6 quick / 8 thorough), D=1..6, rational k/12, unit and random weights, "
         "mixed masses; J of all 2^E subsets vs the exact Fraction recursion, the sum over all E! orderings (E<=6 quick, <=7 thorough), "
         "cached factor vs mpmath (40 digits); same topology is rebuilt with other weights inside one process. "
